@@ -68,7 +68,7 @@ Proof. reflexivity. Qed.
 Example C06_ex_boom : eval default_ctx boom = (Err EDivZero, []).
 Proof. reflexivity. Qed.
 Definition logctx : ctx :=
-  add_function default_ctx $"f" {| params := [XArg TValue]; body := FHost (HArg 0) |}.
+  add_function default_ctx $"f" {| params := [XArg TyValue]; body := FHost (HArg 0) |}.
 Definition callf : expr := ECall $"f" None [ELit (VBool true)].
 Example C06_ex_log : eval logctx callf = (Ok (VBool true), [Called $"f" [VBool true]]).
 Proof. reflexivity. Qed.
